@@ -210,8 +210,73 @@ static void op_eval(struct arg *a, int n, FILE *out) {
 	unlink(fpath);
 }
 
+/* small pure functions: time.c, flags, paths */
+static void op_small(const char *op, struct arg *a, int n, FILE *out) {
+	if (strcmp(op, "tzoff") == 0 && n == 1) {
+		time_t tz = 0;
+		if (tzoff((const char *)a[0].p, &tz)) fputs("NONE", out); else fprintf(out, "OK %lld", (long long)tz);
+	} else if (strcmp(op, "tparse") == 0 && n >= 2) {
+		/* tparse <date> <now> [<TZ> | ~ for unset] */
+		struct environment env;
+		struct tm *tm;
+		time_t res = 0;
+		memset(&env, 0, sizeof(env));
+		if (n > 2 && !(a[2].n == 1 && a[2].p[0] == '~')) {
+			setenv("TZ", (const char *)a[2].p, 1);
+			env.ev_tz.t_state = a[2].n ? TZ_STATE_SET : TZ_STATE_UTC;
+			strlcpy(env.ev_tz.t_buf, (const char *)a[2].p, sizeof(env.ev_tz.t_buf));
+		} else {
+			unsetenv("TZ");
+			env.ev_tz.t_state = TZ_STATE_LOCAL;
+		}
+		tzset();
+		env.ev_now = (time_t)strtoll((const char *)a[1].p, NULL, 10);
+		tm = localtime(&env.ev_now);
+		env.ev_tz.t_offset = tm ? tm->tm_gmtoff : 0;
+		if (time_parse((const char *)a[0].p, &res, &env)) fputs("NONE", out); else fprintf(out, "OK %lld", (long long)res);
+	} else if (strcmp(op, "flagsp") == 0 && n == 1) {
+		struct message_flags mf = { 0, 0 };
+		if (message_flags_parse(&mf, (const char *)a[0].p)) fputs("NONE", out); else fprintf(out, "OK %u %u", mf.mf_upper, mf.mf_lower);
+	} else if (strcmp(op, "flagss") == 0 && n == 3) {
+		/* flagss <upper dec> <lower dec> <bufsiz dec> */
+		struct message_flags mf;
+		char buf[256];
+		size_t siz = (size_t)strtoul((const char *)a[2].p, NULL, 10);
+		mf.mf_upper = (unsigned)strtoul((const char *)a[0].p, NULL, 10);
+		mf.mf_lower = (unsigned)strtoul((const char *)a[1].p, NULL, 10);
+		if (siz > sizeof(buf)) siz = sizeof(buf);
+		if (message_flags_str(&mf, buf, siz) == NULL) fputs("NONE", out); else { fputs("OK ", out); hexs(out, buf); }
+	} else if (strcmp(op, "msgflags") == 0 && n == 4) {
+		/* msgflags <src n|c> <dst n|c> <upper> <lower> */
+		struct maildir src, dst;
+		struct message m;
+		char buf[FLAGS_MAX];
+		memset(&src, 0, sizeof(src)); memset(&dst, 0, sizeof(dst)); memset(&m, 0, sizeof(m));
+		src.md_subdir = a[0].p[0] == 'n' ? SUBDIR_NEW : SUBDIR_CUR;
+		dst.md_subdir = a[1].p[0] == 'n' ? SUBDIR_NEW : SUBDIR_CUR;
+		m.me_mflags.mf_upper = (unsigned)strtoul((const char *)a[2].p, NULL, 10);
+		m.me_mflags.mf_lower = (unsigned)strtoul((const char *)a[3].p, NULL, 10);
+		if (msgflags(&src, &dst, &m, buf, sizeof(buf))) fputs("NONE", out); else { fputs("OK ", out); hexs(out, buf); }
+	} else if (strcmp(op, "pslice") == 0 && n == 4) {
+		/* pslice <path> <bufsiz> <beg> <end> */
+		char *buf;
+		size_t siz = (size_t)strtoul((const char *)a[1].p, NULL, 10);
+		int beg = atoi((const char *)a[2].p), end = atoi((const char *)a[3].p);
+		buf = malloc(siz ? siz : 1);
+		if (pathslice((const char *)a[0].p, buf, siz, beg, end) == NULL) fputs("NONE", out); else { fputs("OK ", out); hexs(out, buf); }
+		free(buf);
+	} else if (strcmp(op, "pjoin") == 0 && n == 3) {
+		char *buf;
+		size_t siz = (size_t)strtoul((const char *)a[0].p, NULL, 10);
+		buf = malloc(siz ? siz : 1);
+		if (pathjoin(buf, siz, (const char *)a[1].p, (const char *)a[2].p) == NULL) fputs("NONE", out); else { fputs("OK ", out); hexs(out, buf); }
+		free(buf);
+	} else fputs("BADOP", out);
+}
+
 static void handle(const char *op, struct arg *a, int n, FILE *out) {
 	if (strcmp(op, "eval") == 0 && n >= 6) op_eval(a, n, out);
+	else if (strcmp(op, "eval") != 0) op_small(op, a, n, out);
 	else fputs("BADOP", out);
 }
 
